@@ -87,7 +87,9 @@ def _validate(ctx, recs):
             raise Machinery("generator problem (not a violation): %s" % json.dumps(info)[:600])
         fails.append(Failure(signature(r, info), describe(r, info), {"family": "usysex", "record": _slim(r)}))
     # smallest input first, arguments inside the range before others: the reported instance of a class is the plainest one
-    fails.sort(key=lambda f: (sum(1 for x in f.payload["record"]["a"] if x > 127), len(json.dumps(f.payload))))
+    # (the boundary tables are the same for every seed: the same instance is reported whatever the seed)
+    fails.sort(key=lambda f: (sum(1 for x in f.payload["record"]["a"] if x > 127), "boundary" not in f.payload["record"]["feat"],
+                              len(json.dumps(f.payload)), f.payload["record"]["id"]))
     return fails
 
 
@@ -148,7 +150,7 @@ def run(ctx):
         "midi.SysEx with an empty payload or 8-bit bytes in the payload (only F0 .. F7)",
         "the package offers no helper for MTC full message, MIDI show control, notation, sample dump, tuning, file dump: nothing to check there",
     ]
-    ctx.model_check("MC_UniversalSysex", "MC_UniversalSysex.cfg", timeout=900)
+    ctx.model_check("MC_UniversalSysex", "MC_UniversalSysex.cfg" if q else "MC_UniversalSysex_thorough.cfg", timeout=900)
     seeds = [ctx.seed] if q else [ctx.seed * 1000 + i for i in range(4)]
     recs = []
     for s in seeds:
